@@ -92,6 +92,31 @@ def run(rep, tier, seed, replay=None):
                            cases, impl, model)
     except RuntimeError as ex:
         rep.add_broken('correspondence', 'model evaluation', str(ex)[-1500:])
+    # ---- K2: every block container of the oracle's nested trees (flex / grid / block children), the LayoutOutputs the children
+    # returned being recorded through the low-level API and supplied to the model as oracle values: same block_inflow, plus
+    # compute_inner's decisions (outer height, collapse-through flag, top / bottom margin sets) and what was passed to each child
+    bad2, k2_trees = [], (500 if tier == 'quick' else 6000)
+    if block_changed:
+        k2_trees = max(k2_trees, 2500)
+    if not (replay and ('kcase' in replay or 'ocase' in replay)):
+        rc, out = vh(binp, ['c10', 'kcases2', seed, k2_trees], timeout=300)
+        tags = [l.split()[1:] for l in out.split('\n') if l.startswith('T ')]
+        cases2, impl2 = parse_cr(out)
+        if rc != 0 or not cases2 or len(tags) != len(cases2):
+            rep.add_broken('correspondence', 'vh c10 kcases2', 'harness failed: ' + out[-500:])
+        else:
+            try:
+                model2 = run_model('C10b', 'From TV Require Import Model.BlockRun.', 'run_case2', cases2, scope='Z', elem='list Z')
+                keep = [i for i, m in enumerate(model2) if m != [-1]]
+                rep.cov['k2_containers'] = len(keep)
+                rep.cov['k2_skipped_content_based_width'] = len(cases2) - len(keep)
+                rep.cov['k2_with_flex_or_grid_children'] = sum(1 for i in keep if any(
+                    cases2[i][11 + 57 + 67 * k + 57] == 1 and cases2[i][11 + 57 + 67 * k + 0] in (1, 2) for k in range(cases2[i][10])))
+                bad2 = diff_results(rep, 'block container with recorded child outputs (low-level API) vs Model.BlockRun.run_case2 over F32',
+                                    [cases2[i] for i in keep], [impl2[i] for i in keep], [model2[i] for i in keep])
+                bad2 = [(tags[cases2.index(c)], c, a, b) for c, a, b in bad2]
+            except RuntimeError as ex:
+                rep.add_broken('correspondence', 'model evaluation (K2)', str(ex)[-1500:])
     feats, pairs, distinct = {}, set(), set()
     inflow_total = 0
     for c in cases:
@@ -161,6 +186,9 @@ def run(rep, tier, seed, replay=None):
         i = idx_of[cases.index(c)]
         rc, out = vh(binp, ['c10', 'check-case', kseed, i], timeout=60)
         absorb(out, 'K case', lambda idx: {'kcase': [kseed, idx], 'cmd': 'vh c10 case %d %d v ; vh c10 check-case %d %d' % (kseed, idx, kseed, idx)})
+    for tg, c, a, b in bad2[:3]:
+        rc, out = vh(binp, ['c10', 'oracle-one', seed, tg[0]], timeout=60)
+        absorb(out, 'oracle case', lambda idx: {'ocase': [seed, idx], 'cmd': 'vh c10 oracle-one %d %d' % (seed, idx)})
     # ---- search: direct oracle on random nested trees (always run)
     if replay and 'ocase' in replay:
         oseed, oidx = replay['ocase']
